@@ -541,7 +541,13 @@ func realFilter(text string, md []byte) string {
 			done <- "builderr"
 			return
 		}
-		if fn(1, md) {
+		// the built filter is applied twice: its answer depends on the text and the metadata only, so a
+		// second application (warm caches, reused state) must neither panic nor answer differently
+		r1 := fn(1, md)
+		r2 := fn(1, md)
+		if r1 != r2 {
+			done <- "unstable"
+		} else if r1 {
 			done <- "true"
 		} else {
 			done <- "false"
@@ -861,6 +867,17 @@ func queryC14(o *Opts) {
 	for _, f := range fragments {
 		run(f, []byte(malformedDocs[0]))
 		run("x "+f, []byte(malformedDocs[0]))
+	}
+	// patterns that do not compile, matched against a field that holds a string, the same filter text on
+	// several documents (and each run applies it twice): an evaluation error is a rejection every time
+	for _, pat := range []string{"[", "ab(c[", "(", "a{2,1}", "*a", "\\\\q", "(?P<n", "a**", "[z-a]"} {
+		for _, f := range []string{"name", "s", "o.y", "tags[0]"} {
+			text := f + " MATCHES '" + pat + "'"
+			for _, d := range []string{`{"name":"ab(c[","s":"x","o":{"y":"abc"},"tags":["a","b"]}`, `{"name":"Jason","s":"","o":{"y":"["},"tags":["[" ]}`} {
+				run(text, []byte(d))
+			}
+			res.Hit("stream:bad-regex")
+		}
 	}
 	for i := 0; i < n; i++ {
 		text := genMalformed(rng, valid)
